@@ -264,7 +264,7 @@ func main() {
 	for _, hc := range fixedHistories() {
 		runHistory(hc)
 	}
-	n := run.Scale(600, 20000)
+	n := run.Scale(600, 60000)
 	for i := 0; i < n; i++ {
 		runHistory(genHistory(r, 10))
 	}
@@ -272,6 +272,9 @@ func main() {
 }
 
 func replayCase(c map[string]string) {
+	if _, raw := c["raw"]; raw {
+		return // a model-input line that cannot be turned back into a case
+	}
 	switch c["kind"] {
 	case "H", "":
 		var hc histCase
